@@ -115,5 +115,49 @@ func extractC15(repo string, o *Out) {
 		o.problem("RpcClient.counter is not a uint16 field")
 	}
 	o.nat("seqBits", bits, "qnet/rpc.go RpcClient.counter: width of the sequence counter")
+	// stripExpired: the live list is replaced by something fresh (make / nil / a literal), never by a slice of
+	// the list it hands out — else a sweep during ReapTimeout's loop writes into the batch being completed
+	fresh := false
+	if fd := qp.Func("RpcClient", "stripExpired"); fd == nil {
+		o.problem("method RpcClient.stripExpired not found")
+	} else {
+		good, bad := 0, 0
+		ast.Inspect(fd, func(n ast.Node) bool {
+			as, ok := n.(*ast.AssignStmt)
+			if !ok {
+				return true
+			}
+			for i, l := range as.Lhs {
+				if qp.Src(l) != "c.expired" || i >= len(as.Rhs) {
+					continue
+				}
+				switch r := as.Rhs[i].(type) {
+				case *ast.CallExpr:
+					if id, ok := r.Fun.(*ast.Ident); ok && id.Name == "make" {
+						good++
+					} else {
+						bad++
+					}
+				case *ast.Ident:
+					if r.Name == "nil" {
+						good++
+					} else {
+						bad++
+					}
+				case *ast.CompositeLit:
+					good++
+				default:
+					bad++
+				}
+			}
+			return true
+		})
+		fresh = good == 1 && bad == 0
+		if rp := qp.Func("RpcClient", "ReapTimeout"); rp == nil || len(qp.Calls(rp, "c.stripExpired")) != 1 {
+			o.problem("ReapTimeout does not take its batch through exactly one call of c.stripExpired()")
+			fresh = false
+		}
+	}
+	o.bool("stripFresh", fresh, "qnet/rpc.go stripExpired: c.expired is replaced by a fresh slice (make/nil/literal), the batch handed to ReapTimeout shares no storage with it")
 	c18writeSkeleton(qp, o, "rpc.go", "rpc.txt")
 }
